@@ -20,8 +20,8 @@ am = assert_overlay()
 from atomman.core.nlist import nlist  # noqa: E402
 
 chk = Check('C03', 'exploration',
-            'sparse systems: every pair of the 8^3 (thorough 11^3 for the first cell) per-axis coordinate menu '
-            '{low face, 0.3c, 0.6c, 0.95c, L/2, L-0.6c, L-0.005c (sliver), high face} whose reference distance is < 1.5c '
+            'sparse systems: every pair of the 7^3 (thorough 11^3 for the first cell) per-axis coordinate menu '
+            '{low face, 0.3c, 0.95c, L/2, L-0.6c, L-0.005c (sliver), high face} whose reference distance is < 1.5c '
             '(quick; plus every 10th far pair; thorough: all pairs), every triple of a 3^3 sub-grid, in 6+ cells x origins x all 8 pbc; '
             'exact-ties: all pairs/triples of 9 integer/dyadic points in power-of-two orthogonal cells with the cutoff set exactly to representable pair distances (Fraction oracle, strict <); '
             'small cells with cutoff > L/2 and > L; a dense family (45-60 atoms in one bin); storage sizes (1,1),(2,3),(20,10); '
@@ -35,9 +35,9 @@ IMAGES = np.array(list(itertools.product([-1, 0, 1], repeat=3)))
 
 
 def axis_menu(L, c, big=False):
-    m = [0.0, 0.3 * c, 0.6 * c, 0.95 * c, L / 2, L - 0.6 * c, L - 0.005 * c, L]
+    m = [0.0, 0.3 * c, 0.95 * c, L / 2, L - 0.6 * c, L - 0.005 * c, L]
     if big:
-        m += [0.005 * c, L - 0.95 * c, L - 0.3 * c]
+        m += [0.005 * c, 0.6 * c, L - 0.95 * c, L - 0.3 * c]
     return m
 
 
@@ -226,8 +226,8 @@ def triples(case):
     pbc = PBCS[case['pbc']]
     P = menu_positions(case['cell'])
     # 3^3 sub-grid: low face / sliver / 0.95c on each axis - the values that interact with ghost bins
-    sel = [0, 3, 6]
-    idx = [i * 64 + j * 8 + k for i in sel for j in sel for k in sel]
+    sel = [0, 2, 5]
+    idx = [i * 49 + j * 7 + k for i in sel for j in sel for k in sel]
     S = P[idx]
     a = case['a']
     system = am.System(atoms=am.Atoms(pos=S[:3] + o), box=am.Box(vects=v, origin=o), pbc=pbc)
@@ -343,13 +343,13 @@ def single_and_class(case):
     pbc = PBCS[case['pbc']]
     P = menu_positions(case['cell'])
     fails = []
-    for k in (0, 255, 511):
+    for k in (0, 171, 342):
         system = am.System(atoms=am.Atoms(pos=P[[k]] + o), box=am.Box(vects=v, origin=o), pbc=pbc)
         chk.note('builds')
         for cut in (0.6 * c, c, 9.0 * c):
             fails += compare(nlist(system, cut, 1, 1), [[]], 'single-')
             fails += class_checks(system, cut, [[]], (1, 1), 'single-')
-    idx = [0, 7, 63, 511, 255, 180, 3, 505]
+    idx = [0, 6, 48, 342, 171, 120, 2, 337]
     pos = P[idx]
     system = am.System(atoms=am.Atoms(pos=pos + o), box=am.Box(vects=v, origin=o), pbc=pbc)
     for cut in (0.6 * c, c, 1.7 * c):
@@ -433,7 +433,7 @@ def gen():
     quick_pairs = {(0, 0), (0, 1), (4, 0)}       # quick: (cell, origin) combinations for the pair sweep
     quick_triples = {(0, 0), (4, 0), (2, 0)}
     for ci in range(ncell):
-        npos = 512
+        npos = 343
         for oi in range(len(ORIGINS)):
             for pi in range(len(PBCS)):
                 yield 'single-and-class', {'cell': ci, 'origin': oi, 'pbc': pi}
